@@ -256,7 +256,11 @@ def run(ctx):
             ok = both and not hir.find_calls(arms_[0]["body"]) and arms_[1]["pat"]["k"] == "Wild" and len(hir.find_calls(arms_[1]["body"], "push")) == 1
     ctx.ob("F-POST", "post_process_whitespace: trims, then drops a char only when it and its predecessor are both whitespace", bool(ok), "")
     asg = [n for n in hir.walk(pw["body"]) if n.get("k") == "Assign"]
-    ctx.ob("F-POST", "post_process_whitespace writes the result back (*s = result)", len(asg) == 1 and field_path(asg[0]["r"]) == ("result",), "")
+    # ... into the parameter, from the local the kept characters were pushed to (binders by identity, not by name)
+    pushed = {field_path(c["recv"]) for c in hir.find_calls(pw["body"], "push") if field_path(c["recv"]) and len(field_path(c["recv"])) == 1}
+    par = [q["name"] for q in pw.get("params", []) if q.get("k") == "Binding"]
+    ctx.ob("F-POST", "post_process_whitespace writes the result back (*s = result)",
+           len(asg) == 1 and len(pushed) == 1 and field_path(asg[0]["r"]) in pushed and len(par) == 1 and field_path(asg[0]["l"]) == (par[0],), "")
     # component order is preserved end to end (formatter, templates, parsers, fold, accessors)
     import maps as _maps
     _maps.rule_O_ORDER(ctx)
